@@ -169,6 +169,40 @@ def check_modes(rng, X, desc):
             if e1 > 1e-10 or e2 > 1e-9 * kap:
                 bad.append(("modes-factors-inconsistent", f"{nm}: mode {k}: Cholesky factor / inverse are not those of the scale matrix "
                             f"(|LL^T-C|/|C| = {e1:.3g}, |C^-1 C - I| = {e2:.3g}, cond {kap:.3g})"))
+    # the same particles squeezed into a tiny part of the cube (a posterior far narrower than the prior): under the same
+    # random stream every mode must be the squeezed image of the mode fitted on the unsqueezed particles
+    nsq = 0
+    for trial in range(2):
+        sc = 10 ** rng.uniform(-9.5, 0, d) if trial == 0 else np.full(d, 10 ** rng.uniform(-9.5, -3))
+        off = rng.uniform(0, 1 - sc) * (sc >= 1e-7)
+        U2 = off + sc * U
+        labs = lab2 if has_n_modes else labels
+        kw = dict(n_modes=6) if has_n_modes else {}
+        same_mult = all(len(np.unique(U2[labs == v], axis=0)) == len(np.unique(U[labs == v], axis=0)) for v in np.unique(labs))
+        if not same_mult:
+            continue
+        sd = int(rng.integers(2 ** 31))
+        try:
+            with contextlib.redirect_stdout(io.StringIO()), np.errstate(all="ignore"):
+                np.random.seed(sd)
+                m1 = ModeStatistics.from_particles(U, w, labs, **kw)
+                np.random.seed(sd)
+                m2 = ModeStatistics.from_particles(U2, w, labs, **kw)
+        except Exception as e:
+            bad.append(("modes-exception-squeezed", f"from_particles raised {type(e).__name__}: {e} on particles squeezed by {sc} ({desc})"))
+            continue
+        nsq += 1
+        for k in range(min(m1.K, m2.K)):
+            sdk = np.sqrt(np.diag(m1.covariances[k]))
+            dm = float(np.max(np.abs((m2.means[k] - off) / sc - m1.means[k]) / sdk))
+            dC = float(np.max(np.abs(m2.covariances[k] / np.outer(sc, sc) - m1.covariances[k]) / np.outer(sdk, sdk)))
+            n1, n2 = float(m1.degrees_of_freedom[k]), float(m2.degrees_of_freedom[k])
+            tol = 1e-4 + 1e-15 / float(sc.min()) * 1e3
+            if m1.K != m2.K or dm > tol or dC > tol or abs(n1 - n2) > 1e-4 * max(n1, n2):
+                bad.append(("modes-not-equivariant", f"mode {k}: particles squeezed per coordinate by {sc} (offset {off}) give a mode whose location differs by "
+                            f"{dm:.3g} sd and whose scale matrix differs by {dC:.3g} (relative) from the squeezed image; nu {n1!r} vs {n2!r} on {desc}"))
+                break
+    desc["squeezed"] = nsq
     return bad
 
 
@@ -236,6 +270,7 @@ def run():
             ck.case(desc, nontrivial=desc["kind"] != "gauss")
             ck.event("fit_mvstud well-posedness + 3 equivariance pairs")
             ck.event("ModeStatistics.from_global/from_particles checked", 3)
+            ck.event("mode fits on particles squeezed into a tiny part of the cube compared with the squeezed image", desc.get("squeezed", 0))
             if nu is not None and np.isfinite(nu):
                 finite_nu += 1
             for key, what in bad:
@@ -261,7 +296,8 @@ def run():
         for key, what in bad:
             ck.violation(key, what, kw)
     ck.tables["recovered_nu"] = out
-    ck.require_events("fit_mvstud well-posedness + 3 equivariance pairs", "recovery on 2e4 multivariate-t samples")
+    ck.require_events("fit_mvstud well-posedness + 3 equivariance pairs", "recovery on 2e4 multivariate-t samples",
+                      "mode fits on particles squeezed into a tiny part of the cube compared with the squeezed image")
     return ck.finish(
         rule="data sets from VERIF_SEED: d 1..8, n >= 4d (up to 1500), Gaussian / multivariate-t (nu 1.5..30) / skewed / 5%-contaminated / "
              "uniform / rho=0.95; equivariance pairs under per-coordinate scaling 1e-6..1e6, translation, coordinate permutation (rtol 1e-4); "
